@@ -18,16 +18,19 @@ N == Cardinality(U0)
 
 AccLists == << {"passing"}, {"passing", "warning"}, {"passing", "warning", "critical"}, {"warning"},
                {"critical"}, {"passing", "critical"}, {"warning", "critical"} >>
-Tagged   == << {"s1", "s2"}, {"s1"} >>
+AllInst  == {<<n, s>> : n \in Nodes, s \in Sids}
+\* which instances carry the routing tag: all; all of s1 only; all but (n1,s1) - the same service id is
+\* tagged on one node and untagged on the other; all but (n2,s1)
+Tagged   == << AllInst, {i \in AllInst : i[2] = "s1"}, AllInst \ {<<"n1", "s1">>}, AllInst \ {<<"n2", "s1">>} >>
 InstSeq  == << <<"n1", "s1">>, <<"n1", "s2">>, <<"n2", "s1">>, <<"n2", "s2">> >>
 
 Mask(M, acc, strict, tg) ==
     LET b(k) == IF Healthy(M, InstSeq[k][1], InstSeq[k][2], acc, strict, tg) THEN 2^(k-1) ELSE 0
     IN b(1) + b(2) + b(3) + b(4)
-\* configuration order: acc list (7) x strict (FALSE, TRUE) x tagged (2)
-Masks(M) == [c \in 1..28 |->
-               LET a == ((c - 1) \div 4) + 1  r == (c - 1) % 4 IN
-               Mask(M, AccLists[a], (r \div 2) = 1, Tagged[(r % 2) + 1])]
+\* configuration order: acc list (7) x strict (FALSE, TRUE) x tagged (4)
+Masks(M) == [c \in 1..56 |->
+               LET a == ((c - 1) \div 8) + 1  r == (c - 1) % 8 IN
+               Mask(M, AccLists[a], (r \div 4) = 1, Tagged[(r % 4) + 1])]
 
 VARIABLES ms, done
 vars == <<ms, done>>
@@ -48,7 +51,7 @@ Spec == Init /\ [][Next]_vars
 Monotone == ms # <<>> =>
     LET M == [k \in DOMAIN ms |-> USeq[ms[k]]] IN
     \A k \in 1..4 : LET n == InstSeq[k][1] s == InstSeq[k][2] IN
-       /\ Healthy(M, n, s, {"passing"}, FALSE, Sids) => Healthy(M, n, s, {"passing", "warning"}, FALSE, Sids)
-       /\ \A a \in 1..7 : Healthy(M, n, s, AccLists[a], TRUE, Sids) => Healthy(M, n, s, AccLists[a], FALSE, Sids)
-       /\ \A a \in 1..7 : Healthy(M, n, s, AccLists[a], FALSE, {"s1"}) => Healthy(M, n, s, AccLists[a], FALSE, Sids)
+       /\ Healthy(M, n, s, {"passing"}, FALSE, AllInst) => Healthy(M, n, s, {"passing", "warning"}, FALSE, AllInst)
+       /\ \A a \in 1..7 : Healthy(M, n, s, AccLists[a], TRUE, AllInst) => Healthy(M, n, s, AccLists[a], FALSE, AllInst)
+       /\ \A a \in 1..7, tg \in 2..4 : Healthy(M, n, s, AccLists[a], FALSE, Tagged[tg]) => Healthy(M, n, s, AccLists[a], FALSE, AllInst)
 =============================================================================
